@@ -30,7 +30,7 @@ COQ_EXTRA = ['Gen.C02HashSpec_ok']
 THEOREMS = [
     'C02_encode_injective', 'C02_encode_injective_gen', 'C02_lang_injective', 'C02_single_change',
     'C02_boundary_shift', 'C02_split_merge', 'C02_name_value_shift', 'C02_list_move',
-    'C02_driver_mode_table', 'C02_driver_mode_separates', 'C02_env_reaches_keys', 'C02_arch_list_covered', 'C02_pp_arch_list_covered', 'C02_key_iff',
+    'C02_driver_mode_table', 'C02_driver_mode_separates', 'C02_env_reaches_keys', 'C02_arch_list_covered', 'C02_pp_arch_list_covered', 'C02_extra_files_ordered', 'C02_pp_input_path_as_given', 'C02_key_iff',
     'C02_pp_encode_injective', 'C02_pp_encode_injective_canon', 'C02_pp_time_salt_injective', 'C02_pp_single_change', 'C02_pp_boundary_shift', 'C02_pp_name_value_shift',
     'C02_pp_list_move', 'C02_pp_key_iff', 'C02_pp_env_covers_main', 'C02_required_vars_hashed',
     'C02_lang_pp_boundary_refuted', 'C02_extra_pp_boundary_refuted', 'C02_pp_lang_path_boundary_refuted',
@@ -149,6 +149,10 @@ def side_conditions(s):
     res.append(('side-condition:flow_c / flow_p (generate_hash_key hashes plain concatenations of the parsed argument lists, -arch order and multiplicity kept)',
                 s.get('flow_c') == ['SCommon', 'SArch', 'SProfile'] and s.get('flow_p') == ['SPre', 'SArch', 'SCommon', 'SProfile', 'SCwd'],
                 'hash_key <- %s; preprocessor_cache_entry_hash_key <- %s' % (s.get('flow_c'), s.get('flow_p'))))
+    res.append(('side-condition:the_extra_order = InOrder (util::hash_all returns the digest of the i-th file at position i)',
+                s.get('extra_order') == 'InOrder', str(s.get('extra_order'))))
+    res.append(('side-condition:the_input_path_mode = AsGiven (the preprocessor-level key gets cwd.join(input), not a resolved path)',
+                s.get('input_path_mode') == 'AsGiven', str(s.get('input_path_mode'))))
     pf = s.get('env_prefilter')
     lost = [] if pf is None else [n.decode('latin-1') for n in s['allow_main'] + s['allow_pp'] if n not in pf]
     res.append(('side-condition:prefilter_ok (generate_hash_key passes every allow-listed variable on to the key functions)', not lost,
@@ -734,6 +738,25 @@ def gen_flow(rng, tier):
                     steps.append([kind, kind, [b'"16.0.6"'], noise, [], pm, extra])
                     labels.append(b'arch-' + b'-'.join(al) if al else b'arch-none')
                 out.append([labels, steps])
+        # (E) more extra hashed files than any batch size a hashing helper is likely to use, the FIRST one large: the
+        #     digests must stay in file order however the hashing tasks finish.  Same set of contents, rotated.
+        for nf in (18, 33):
+            small = [b'fun:f%d\n' % i for i in range(nf - 1)]
+            big = [b'src:big/*\n', 1 << 20]                      # 10 bytes x 2^20
+            t = 1600000000
+
+            def files(contents):
+                return [[b'e%d.txt' % i, c[0], t, c[1]] if isinstance(c, list) else [b'e%d.txt' % i, c, t] for i, c in enumerate(contents)]
+            orders = [(b'big-first', [big] + small), (b'big-last', small + [big]), (b'big-first-again', [big] + small),
+                      (b'big-second', small[:1] + [big] + small[1:])]
+            for pm in (0, 1):
+                out.append([[l for l, _ in orders],
+                            [[b'clang', b'clang', [b'"16.0.6"'], noise, files(c), pm] for _, c in orders]])
+        # (F) the input path as given: a symbolic link, its target, a copy, and spellings of one path
+        for pm in (1, 0):
+            inputs = [b'b/x.c', b'a/x.c', b'c/x.c', b'./b/x.c', b'b/../b/x.c', b'b/x.c']
+            out.append([[b'input-' + i for i in inputs],
+                        [[b'clang', b'clang', [b'"16.0.6"'], noise, [], pm, [], i] for i in inputs]])
     return out
 
 
@@ -741,9 +764,12 @@ def flow_views(st):
     exe, kind, ver, env, files, pm = st[:6]
     extra_args = tuple(st[6]) if len(st) > 6 else ()
     am, ap = allow_list('allow_main'), allow_list('allow_pp')
-    base = (kind.endswith(b'++'), tuple(ver), tuple(f[1] for f in files), tuple(f[0] for f in files))
+    inp = st[7] if len(st) > 7 else b'foo.c'
+    base = (kind.endswith(b'++'), tuple(ver), tuple((f[1], f[3] if len(f) > 3 else 1) for f in files), tuple(f[0] for f in files))
+    # the result key sees the input only through the (mocked, constant) preprocessor output; the manifest key hashes
+    # cwd.join(input) as given
     return (base + (tuple(sorted((k, v) for k, v in env if k in am)), extra_args),
-            base + (tuple(sorted((k, v) for k, v in env if k in ap)), extra_args))
+            base + (tuple(sorted((k, v) for k, v in env if k in ap)), extra_args, inp))
 
 
 def monitor_flow(case, out):
@@ -756,7 +782,7 @@ def monitor_flow(case, out):
             vs.append('step %d (%s): no key (%r)' % (i, labels[i].decode(), o))
     views = [flow_views(st) for st in steps]
     names = ('C++ driver', 'reported version', 'contents of the extra hashed files', 'extra file names', 'allow-listed environment',
-             'ordered list of hashed arguments')
+             'ordered list of hashed arguments', 'input path as given')
     for i in range(len(steps)):
         for j in range(i + 1, len(steps)):
             if not (isinstance(out[i], list) and isinstance(out[j], list) and len(out[i]) == 2 and len(out[j]) == 2):
@@ -770,10 +796,10 @@ def monitor_flow(case, out):
                 a, b = views[i][which], views[j][which]
                 if a != b and ki == kj:
                     diff = ', '.join(n for n, x, y in zip(names, a, b) if x != y)
-                    vs.append('generate_hash_key: steps %d (%s) and %d (%s) of one server process differ in [%s] (%r vs %r) but the %s '
+                    vs.append('generate_hash_key: steps %d (%s) and %d (%s) of one server process differ in [%s] (%s vs %s) but the %s '
                               'that reaches the storage is the same: %s'
                               % (i, labels[i].decode(), j, labels[j].decode(), diff,
-                                 [x for x, y in zip(a, b) if x != y], [y for x, y in zip(a, b) if x != y], what, ki.decode('latin-1')))
+                                 repr([x for x, y in zip(a, b) if x != y])[:300], repr([y for x, y in zip(a, b) if x != y])[:300], what, ki.decode('latin-1')))
                 if a == b and ki != kj:
                     vs.append('generate_hash_key: steps %d (%s) and %d (%s) agree on every hashed component but get different %ss'
                               % (i, labels[i].decode(), j, labels[j].decode(), what))
